@@ -106,6 +106,15 @@ func vf04NewWorld(m *vfMMU, start string) (*vf04World, string) {
 		return w, fmt.Sprintf("PageDirectoryTable.Init installed recursive entry %#x", e)
 	}
 	var setup []vf04Op
+	// "<state>+hw" / "<state>+attr": the same start state, with bits in both roots' recursive slots that the
+	// operations never set themselves - Accessed/Dirty as the MMU sets them while walking through the slot,
+	// and NX/Global as a boot path may choose to. They must survive an operation on the inactive space.
+	var rootBits uintptr
+	if strings.HasSuffix(start, "+hw") {
+		start, rootBits = strings.TrimSuffix(start, "+hw"), 0x60
+	} else if strings.HasSuffix(start, "+attr") {
+		start, rootBits = strings.TrimSuffix(start, "+attr"), 0x60|1<<8|1<<63
+	}
 	switch start {
 	case "empty":
 	case "all-mapped":
@@ -140,6 +149,11 @@ func vf04NewWorld(m *vfMMU, start string) (*vf04World, string) {
 		*(*uintptr)(unsafe.Pointer(table + 8)) = (0x40000 << 12) | uintptr(FlagPresent|FlagRW|FlagHugePage)
 		for p := uint64(512); p < 1024; p++ {
 			w.huge[p] = true
+		}
+	}
+	if rootBits != 0 {
+		for _, r := range w.roots() {
+			*(*uintptr)(unsafe.Pointer(r + 511*8)) |= rootBits
 		}
 	}
 	m.allocs, m.flushed = 0, nil
@@ -620,7 +634,7 @@ func TestVerifC04(t *testing.T) {
 	complete := true
 	full := vf04Alphabet(true)
 	reduced := vf04Alphabet(false)
-	starts := []string{"empty", "all-mapped", "deepest", "b-built", "b-active", "huge"}
+	starts := []string{"empty", "all-mapped", "deepest", "b-built", "b-active", "huge", "empty+hw", "b-built+attr", "b-active+hw"}
 	if run.Thorough() {
 		// depth 2 over the full alphabet from every start state, depth 3 over the reduced alphabet
 		for _, st := range starts {
@@ -643,9 +657,9 @@ func TestVerifC04(t *testing.T) {
 			}
 		}
 	}
-	bound := fmt.Sprintf("quick: all histories of length <=2 over the full alphabet (%d operations: 7 pages x {Map, A.Map, B.Map} x 3 frames x 5 flag sets x allocation failure at call 0..3, unmaps, Activate, MapRegion/IdentityMapRegion x 4 sizes) from the empty state and over the reduced alphabet (%d operations) from 5 non-initial start states", len(full), len(reduced))
+	bound := fmt.Sprintf("quick: all histories of length <=2 over the full alphabet (%d operations: 7 pages x {Map, A.Map, B.Map} x 3 frames x 5 flag sets x allocation failure at call 0..3, unmaps, Activate, MapRegion/IdentityMapRegion x 4 sizes) from the empty state and over the reduced alphabet (%d operations) from 8 non-initial start states (three of them with Accessed/Dirty resp. NX/Global bits in both roots' recursive slots)", len(full), len(reduced))
 	if run.Thorough() {
-		bound = fmt.Sprintf("thorough: length <=2 over the full alphabet (%d operations) from all 6 start states; length <=3 over the reduced alphabet (%d operations) from 3 start states", len(full), len(reduced))
+		bound = fmt.Sprintf("thorough: length <=2 over the full alphabet (%d operations) from all 9 start states; length <=3 over the reduced alphabet (%d operations) from 3 start states", len(full), len(reduced))
 	}
 	run.Finish(complete, bound, "BFS with deduplication on the raw content of simulated RAM; successors by replay of the shortest history on a fresh arena; each shard owns the subtrees below a subset of the first operations")
 }
